@@ -10,7 +10,9 @@
      }
 
      func (e *Engine) loadTemplates(filter) error {        // caller holds the lock
-         if !atomic.CompareAndSwapInt32(&e.templatesLoaded, 0, 1) && filter == "" {
+         // only a load of ALL templates counts as "loaded" (repair dd313c0; before it the CAS was done
+         // for every load: [enter_load_u] below keeps that behaviour as a counter-model)
+         if filter == "" && !atomic.CompareAndSwapInt32(&e.templatesLoaded, 0, 1) {
              return errors.New("Can not preload all templates again")          // RAgain
          }
          verifYield("load:locked")                                             // pc PLocked
@@ -288,11 +290,12 @@ Definition lookup_result (n : bytes) (t : option tmap) : result :=
   | Some m => match lookup n m with Some out => ROk out | None => RNotFound end
   end.
 
-(* e.Lock(); loadTemplates(f) up to the yield point: the CAS *)
+(* e.Lock(); loadTemplates(f) up to the yield point: the CAS, done only by a load of all templates;
+   a filtered load leaves the flag as it is *)
 Definition enter_load (s : st) (i : nat) (f : bytes) : st :=
   if loaded s && is_empty f
   then set_pc s i (PDone RAgain)
-  else mkst (fs s) true (tpls s) (Some i) (upd (pcs s) i PLocked) 0.
+  else mkst (fs s) (loaded s || is_empty f) (tpls s) (Some i) (upd (pcs s) i PLocked) 0.
 
 (* from "load:locked" to the Unlock *)
 Definition finish_load (debug : bool) (ops : nat -> op) (s : st) (i : nat) : st :=
@@ -357,6 +360,48 @@ Definition init (t : fstree) : st := mkst t false None None (fun _ => PStart) 0.
 
 Definition reach (debug : bool) (ops : nat -> op) (t : fstree) (evs : list ev) : st :=
   run debug ops (init t) evs.
+
+(* ---------------------------------------------------------------- the machine before repair dd313c0
+   (counter-model only): every load, filtered ones included, does the CAS and so marks the engine loaded *)
+Definition enter_load_u (s : st) (i : nat) (f : bytes) : st :=
+  if loaded s && is_empty f
+  then set_pc s i (PDone RAgain)
+  else mkst (fs s) true (tpls s) (Some i) (upd (pcs s) i PLocked) 0.
+
+Definition step_u (debug : bool) (ops : nat -> op) (s : st) (i : nat) : option st :=
+  match pcs s i with
+  | PStart =>
+    match ops i with
+    | ORender n =>
+      if debug
+      then (if lock_free s then Some (enter_load_u s i n) else None)
+      else Some (set_pc s i (if loaded s then PAfterLoad else PAfterCheck))
+    | OLoad f => if lock_free s then Some (enter_load_u s i f) else None
+    end
+  | PAfterCheck =>
+    if lock_free s
+    then Some (if loaded s then set_pc s i PAfterLoad else enter_load_u s i [])
+    else None
+  | PLocked => Some (finish_load debug ops s i)
+  | PAfterLoad =>
+    if lock_free s
+    then Some (set_pc s i (PDone (match ops i with
+                                  | ORender n => lookup_result n (tpls s)
+                                  | OLoad _ => RLoaded
+                                  end)))
+    else None
+  | PDone _ => None
+  end.
+
+Definition apply_ev_u (debug : bool) (ops : nat -> op) (s : st) (e : ev) : st :=
+  match e with
+  | EStep i => match step_u debug ops s i with Some s' => s' | None => s end
+  | EFs t => set_fs s t
+  | ECompile i => compile_ev debug ops s i
+  end.
+
+Definition reach_u (debug : bool) (ops : nat -> op) (t : fstree) (evs : list ev) : st :=
+  fold_left (apply_ev_u debug ops) evs (init t).
 
 (* effective steps of thread i along a schedule *)
 Fixpoint eff_steps (debug : bool) (ops : nat -> op) (s : st) (evs : list ev) (i : nat) : nat :=
